@@ -112,6 +112,10 @@ type KnownFinding struct {
 	Key      string `json:"key"`
 	What     string `json:"what"`
 	Witness  string `json:"witness,omitempty"`
+	// Tier "thorough": the rows that show this finding are explored by the
+	// thorough tier only (a deeper walk); the quick tier lists it without
+	// re-finding it
+	Tier string `json:"tier,omitempty"`
 }
 
 type KnownFile struct {
